@@ -49,6 +49,11 @@ def run(check, tier, seed, scratch):
     triples = [(rnd.randrange(len(U3)), rnd.randrange(len(U3)), rnd.randrange(len(U3))) for _ in range(ntri)]
     npairs = len(UP) ** 2
 
+    UM = tlc.export_universe(scratch, names2, ['args'], ['kwargs'], 2, dvs=[2, 3], ans=[0, 1, 2])     # 3 676 signatures with metadata
+    um = Universe(UM)
+    nmeta = 12000 if quick else 400000
+    meta_tuples = [tuple(rnd.randrange(len(UM)) for _ in range(rnd.choice([2, 2, 3]))) for _ in range(nmeta)]
+
     def gen(shard, nshards):
         k = 0
         for i in range(len(UP)):
@@ -66,12 +71,18 @@ def run(check, tier, seed, scratch):
         for t, (clause, case) in enumerate(cex):
             if t % nshards == shard:
                 yield case_event(cu, 'modelcex/%d' % t, 'merge', case['ins'])
+        # metadata must not matter for soundness: the same contract on inputs carrying defaults values and annotations on arbitrary subsets
+        for t, idx in enumerate(meta_tuples):
+            if t % nshards == shard:
+                sigs = [um.sig(i, s + 1) for s, i in enumerate(idx)]
+                yield algebra.event(um, 'mergemeta/%s' % '-'.join(map(str, idx)), 'merge', sigs, lambda: signatures.merge(*sigs),
+                                    case={'op': 'merge', 'ins': [UM[i] for i in idx]})
 
     run_trace_leg(check, scratch, 'merge', gen, WANT, classify=classify)
     check.cov['exhaustive'] = True
     check.cov['rule'] = ('every ordered pair of the %d-signature universe (exhaustive), %d seeded random triples of the '
-                         '580-signature universe, and every counterexample the model leg exported; an event is distinct by '
-                         '(inputs, flags); call shapes per event: the complete set of PyBind!CallsFor' % (len(UP), ntri))
+                         '580-signature universe, %d seeded pairs/triples of the 3 676-signature universe with default values and annotations, and every counterexample the model leg exported; an event is distinct by '
+                         '(inputs, flags); call shapes per event: the complete set of PyBind!CallsFor' % (len(UP), ntri, nmeta))
     check.assumptions += ['bound: <=%d named parameters per signature, star names args/kwargs' % (2 if quick else 3),
                           'PyBind!Accepts is CPython binding (validated by check C20)']
 
